@@ -112,3 +112,11 @@ Definition vm_to_pandas_k (grp_cols : bool) (m : vmat) : tbl :=
   let trait := match vm_trait m with Some l => l | None => synth_k "Trait" (zwidth_trait_k t) t end in
   let idx := flat_map (fun i => flat_map (fun j => map (fun k => (i, j, k)) (seq 0 t)) (seq 0 n)) (seq 0 n) in
   flat_map (vm_column_k grp_cols m taxa trait idx) k_vm_columns.
+
+(** ** the typed readers called directly on one dataset, and h5py_File_read_dict on a file given by its dump *)
+Definition agree_rd (r : reader) (d : dset) (out : option sval) : bool :=
+  match read_d r d, out with inl v, Some w => sval_eqb v w | inr _, None => true | _, _ => false end.
+Definition file_of_dump (d : list (str * option dset)) : file :=
+  map (fun e => (split_path (fst e), match snd e with Some x => NData x | None => NGroup end)) d.
+Definition agree_rdict (dump : list (str * option dset)) (fld : str) (out : option (list (str * option sval))) : bool :=
+  match read_dict (file_of_dump dump) fld, out with inl l, Some m => dict_eqb l m | inr _, None => true | _, _ => false end.
